@@ -499,7 +499,8 @@ def semantic_diff(orig: onnx.ModelProto, new: onnx.ModelProto, feeds_list) -> st
 def signature(m: onnx.ModelProto):
     def ty(v):
         t = v.type.tensor_type
-        dims = tuple((d.dim_value if d.HasField("dim_value") else ("p", d.dim_param) if d.HasField("dim_param") else None)
+        dims = tuple((d.dim_value if d.HasField("dim_value") else ("p", d.dim_param)
+                      if d.HasField("dim_param") and not d.dim_param.startswith("unk__") else None)
                      for d in t.shape.dim) if t.HasField("shape") else None
         return (v.name, t.elem_type, dims)
 
